@@ -6,7 +6,8 @@
     history:  extend b1 · handle · extend c2 · handle · CreateWallet w2 · RemoveWallet w1 · one iteration (step size 1: one
               of w1's two credits goes) · reorgTo 1 [e2] · HANDLE (c2 disconnected, e2 connected, on the partly deleted
               wallet) · reorgTo 1 [c2] · CRASH (c2 still queued in the run that never stops; the crashing run's Start
-              reorganises back onto c2 and queues the removal again) · handle · three iterations · removeDrain
+              reorganises back onto c2 and queues the removal again) · handle · removeDrain (the worker's loop: the finishing
+              iteration)
 -/
 import MW.Lemmas.Deepen5Main
 import MW.Lemmas.Deepen4Ex
@@ -19,7 +20,7 @@ def exKsW : AMap.T Wid KsRec := ("w2", {}) :: exKs0
 def exEvsR : List EvT :=
   [.q (.extend hxB1), .q .handle, .q (.extend hxC2), .q .handle, .q (.create "w2"),
    .removeMark "w1", .removeStep "w1", .q (.reorgTo 1 [exE2]), .q .handle, .q (.reorgTo 1 [hxC2]), .q .crash,
-   .q .handle, .removeStep "w1", .removeStep "w1", .removeStep "w1", .removeDrain "w1"]
+   .q .handle, .removeDrain "w1"]
 
 theorem exValidWc : ChainValid (ownOf exKsW) [hxG, hxB1, hxC2] := by decide
 theorem exValidWe : ChainValid (ownOf exKsW) [hxG, hxB1, exE2] := by decide
@@ -42,15 +43,13 @@ theorem exRunOKW : RunOKW exCfg hxG exK0T exEvsR := by
     ⟨⟨by simp, ex4OK exKsW exE2 (Or.inl rfl) exValidWe⟩, (by show _ + _ < _; decide), trivial⟩,
     ⟨trivial, trivial, trivial⟩,
     ⟨⟨by simp, ex4OK exKsW hxC2 (Or.inr rfl) exValidWc⟩, (by show _ + _ < _; decide), trivial⟩,
-    ⟨trivial, trivial, trivial⟩, ⟨trivial, trivial, trivial⟩, rfl, rfl, rfl, rfl, trivial⟩
+    ⟨trivial, trivial, trivial⟩, ⟨trivial, trivial, trivial⟩, rfl, trivial⟩
 
 theorem pendGuard_nil {P : PStore} (addrs : List Addr) (h : P.led.pendCred = []) : PendGuard P addrs := by
   intro X _ e he
   rw [h] at he; cases he
 
-/-- the hypotheses on the states, in both runs: no unmined credit at RemoveWallet / at the iterations; the handled
-    blocks are on the node's chain and their transactions succeed; Start succeeds at the crash; the iterations have
-    finished the removal before the drain -/
+/-- no unmined credit ⇒ the pending-side clause -/
 theorem exPend (cr : Bool) (n : Nat) (h : (runT exCfg cr exX0 (exEvsR.take n)).P.led.pendCred = []) (addrs : List Addr) :
     PendGuard (runT exCfg cr exX0 (exEvsR.take n)).P addrs := pendGuard_nil addrs h
 
@@ -67,11 +66,14 @@ theorem exOk11 : ((opBlock (envAt exCfg.st (skRunT exCfg exK0T (exEvsR.take 11))
 /-- Start succeeds at the NON-quiet crash (a reorganisation back onto c2) -/
 theorem exOk10 (cr : Bool) : (Model.Persist.crash (envAt exCfg.st (skRunT exCfg exK0T (exEvsR.take 10)).base.chain) exCfg.n
     (runT exCfg cr exX0 (exEvsR.take 10)).P).ok = true := by cases cr <;> decide
-theorem exDone15 (cr : Bool) : removeDone (runT exCfg cr exX0 (exEvsR.take 15)).P "w1" = true := by cases cr <;> decide
+/-- the worker's loop completes at the drain -/
+theorem exLoop12 (cr : Bool) : (removeLoop exCfg.limit exCfg.n (envAt exCfg.st (skRunT exCfg exK0T (exEvsR.take 12)).base.chain) "w1"
+    (addrsOf (skRunT exCfg exK0T (exEvsR.take 12)).base.ks "w1") ((runT exCfg cr exX0 (exEvsR.take 12)).P.led.credits.length + 1)
+    (runT exCfg cr exX0 (exEvsR.take 12)).P (runT exCfg cr exX0 (exEvsR.take 12)).V).isSome = true := by cases cr <;> decide
 
 /-- the hypotheses on the states, in both runs: no unmined credit at RemoveWallet / at the iterations; the handled
-    blocks are on the node's chain and their transactions succeed; Start succeeds at the crash; the iterations have
-    finished the removal before the drain -/
+    blocks are on the node's chain and their transactions succeed; Start succeeds at the crash; the worker's loop
+    completes at the drain -/
 theorem exGuardW (cr : Bool) : GuardW exCfg cr exX0 exK0T exEvsR := by
   apply guardW_of_prefix
   intro i ev hev
@@ -107,11 +109,8 @@ theorem exGuardW (cr : Bool) : GuardW exCfg cr exX0 exK0T exEvsR := by
       refine ⟨fun b hb => ?_, fun b hb => ?_⟩
       · rw [exQ11f] at hb; cases hb; exact exOn11
       · rw [exQ11f] at hb; cases hb; exact exOk11
-  | 12, h => cases h; exact exPend cr 12 (by cases cr <;> decide) _
-  | 13, h => cases h; exact exPend cr 13 (by cases cr <;> decide) _
-  | 14, h => cases h; exact exPend cr 14 (by cases cr <;> decide) _
-  | 15, h => cases h; exact exDone15 cr
-  | n + 16, h => cases h
+  | 12, h => cases h; exact ⟨exPend cr 12 (by cases cr <;> decide) _, fun _ => exLoop12 cr⟩
+  | n + 13, h => cases h
 
 theorem exQuietR : (runT exCfg false exX0 exEvsR).queue = [] := by decide
 
